@@ -263,46 +263,51 @@ Proof.
   rewrite E. cbn [negb]. rewrite IH by exact H. reflexivity.
 Qed.
 
+Definition qpart (u : bytes) : bytes :=
+  match from path_end u with
+  | x :: q => if x =? 63 then until (N.eqb 35) q else []
+  | [] => []
+  end.
+
+Lemma cut_match s c :
+  match find s [c] with Some i => (firstn i s, skipn (S i) s) | None => (s, []) end
+  = (until (N.eqb c) s, tail_of (from (N.eqb c) s)).
+Proof. exact (cut1_spec c s). Qed.
+
+Lemma us_tail_spec sc nl u :
+  us_tail sc nl u = UOk sc nl (until path_end u) (qpart u) (tail_of (from (N.eqb 35) u)).
+Proof.
+  unfold us_tail. rewrite cut_match. rewrite cut_match.
+  destruct (path_query_cut u) as [-> ->]. reflexivity.
+Qed.
+
+Lemma split_uri_slashes t :
+  two_slashes t = true ->
+  split_uri t = SOk [] [] (unquote_to_bytes (until path_end t)) (qpart t) (tail_of (from (N.eqb 35) t)).
+Proof.
+  intro T2. unfold split_uri. rewrite firstn2_two_slashes, T2.
+  rewrite cut_match. rewrite cut_match.
+  destruct (path_query_cut t) as [-> ->]. reflexivity.
+Qed.
+
 (* the target components of the model are those of the specification *)
 Theorem split_uri_spec t sc nl pa qu fr :
   wf_target t -> split_uri t = SOk sc nl pa qu fr ->
   pa = pct_decode (raw_path t) /\ qu = raw_query t.
 Proof.
-  intros W. unfold split_uri, raw_path, raw_query, hier.
-  rewrite firstn2_two_slashes.
+  intros W. unfold raw_path, raw_query, hier. fold (qpart (if two_slashes t then t
+      else match after_scheme t with
+           | Some rest => if two_slashes rest then from auth_end (skipn 2 rest) else rest
+           | None => t end)).
   destruct (two_slashes t) eqn:T2.
-  - pose proof (tail_cut t) as TC. unfold cut1 in TC.
-    destruct (match find t [35] with Some i => (firstn i t, skipn (S i) t) | None => (t, []) end) as [p1 fragment].
-    cbn beta iota in TC.
-    destruct (match find p1 [63] with Some i => (firstn i p1, skipn (S i) p1) | None => (p1, []) end) as [path query].
-    cbn beta iota in TC. destruct TC as [-> ->]. intro H. injection H as _ _ <- <- _. rewrite unquote_pct. split; reflexivity.
-  - rewrite urlsplit_stages. rewrite wf_no_high by exact W.
+  - rewrite split_uri_slashes by exact T2. intro H. injection H as _ _ <- <- _.
+    rewrite unquote_pct. split; reflexivity.
+  - unfold split_uri. rewrite firstn2_two_slashes, T2.
+    rewrite urlsplit_stages. rewrite wf_no_high by exact W.
     cbv zeta. rewrite wf_lstrip by exact W. rewrite wf_filter by exact W.
     pose proof (us_scheme_spec t) as US.
     destruct (us_scheme t) as [scheme url3]. cbn [snd] in US.
     unfold us_netloc. rewrite startswith_two_slashes.
-    assert (TAIL : forall scheme netloc url4,
-              us_tail scheme netloc url4 = UOk sc nl pa qu fr \/
-              (exists pa0, us_tail scheme netloc url4 = UOk sc nl pa0 qu fr /\ pa = unquote_to_bytes pa0) ->
-              True) by auto.
-    clear TAIL.
-    assert (FIN : forall scheme netloc url4,
-              match us_tail scheme netloc url4 with
-              | UOk sc nl p q f => SOk sc nl (unquote_to_bytes p) q f
-              | UUnicodeError => SBadURI
-              | UValueError => SBadURI
-              | UUnmodelled => SUnmodelled
-              end = SOk sc nl pa qu fr ->
-              pa = pct_decode (until path_end url4) /\
-              qu = match from path_end url4 with
-                   | x :: q => if x =? 63 then until (N.eqb 35) q else []
-                   | [] => []
-                   end).
-    { intros scheme0 netloc url4. unfold us_tail. pose proof (tail_cut url4) as TC. unfold cut1 in TC.
-      destruct (match find url4 [35] with Some i => (firstn i url4, skipn (S i) url4) | None => (url4, []) end) as [u5 fragment].
-      cbn beta iota in TC.
-      destruct (match find u5 [63] with Some i => (firstn i u5, skipn (S i) u5) | None => (u5, []) end) as [path query].
-      cbn beta iota in TC. destruct TC as [-> ->]. intro H. injection H as _ _ <- <- _. rewrite unquote_pct. split; reflexivity. }
     destruct (two_slashes url3) eqn:T3.
     + rewrite cut_at_spec. cbv zeta.
       set (nlx := until (fun x => (x =? 47) || (x =? 63) || (x =? 35)) (skipn 2 url3)).
@@ -310,12 +315,160 @@ Proof.
       { cbn. discriminate. }
       destruct (memb 91 nlx || memb 93 nlx).
       { cbn. discriminate. }
-      cbn [N.eqb Pos.eqb]. intro H. apply FIN in H.
+      cbn [N.eqb Pos.eqb]. rewrite us_tail_spec. intro H. injection H as _ _ <- <- _.
+      rewrite unquote_pct.
       destruct (after_scheme t) as [rest|]; subst url3.
-      * rewrite T3. exact H.
+      * rewrite T3. split; reflexivity.
       * congruence.
-    + cbn [N.eqb Pos.eqb]. intro H. apply FIN in H.
+    + cbn [N.eqb Pos.eqb]. rewrite us_tail_spec. intro H. injection H as _ _ <- <- _.
+      rewrite unquote_pct.
       destruct (after_scheme t) as [rest|]; subst url3.
-      * rewrite T3. exact H.
-      * exact H.
+      * rewrite T3. split; reflexivity.
+      * split; reflexivity.
+Qed.
+
+(* ------------------------------------------------------------------ *)
+(* leading slashes and the url_prefix split *)
+
+Lemma lstrip_drop_slashes s : lstrip_by (N.eqb 47) s = drop_slashes s.
+Proof.
+  induction s as [|x s IH]; cbn [lstrip_by drop_slashes]; auto.
+  rewrite (N.eqb_sym 47 x). destruct (x =? 47); auto.
+Qed.
+
+Lemma prefix_cases pre : forall s,
+  match strip_prefix pre s with
+  | Some r =>
+    beqb s pre = (match r with [] => true | _ => false end) /\
+    startswith s (pre ++ [47]) = (match r with x :: _ => x =? 47 | [] => false end) /\
+    skipn (length pre) s = r
+  | None => beqb s pre = false /\ startswith s (pre ++ [47]) = false
+  end.
+Proof.
+  induction pre as [|a pre IH]; intro s.
+  - cbn [strip_prefix app length skipn]. destruct s as [|x s'].
+    + auto.
+    + rewrite startswith_single, (N.eqb_sym 47 x). auto.
+  - destruct s as [|y s']; cbn [strip_prefix].
+    + auto.
+    + cbn [beqb app startswith length skipn]. rewrite (N.eqb_sym y a).
+      destruct (a =? y); cbn [andb].
+      * apply IH.
+      * auto.
+Qed.
+
+Theorem environ_path_spec prefix path0 :
+  environ_path prefix path0 = path_info prefix (collapse path0).
+Proof.
+  unfold environ_path.
+  assert (C : (if startswith path0 [47] then 47 :: lstrip_by (N.eqb 47) path0 else path0) = collapse path0).
+  { destruct path0 as [|x r]; [reflexivity|]. rewrite startswith_single, lstrip_drop_slashes.
+    cbn [collapse]. rewrite (N.eqb_sym 47 x). reflexivity. }
+  rewrite C. unfold path_info. destruct prefix as [|a pre]; [reflexivity|].
+  pose proof (prefix_cases (a :: pre) (collapse path0)) as PC.
+  destruct (strip_prefix (a :: pre) (collapse path0)) as [[|x r]|].
+  - destruct PC as (-> & _). reflexivity.
+  - destruct PC as (-> & -> & ->). destruct (x =? 47); reflexivity.
+  - destruct PC as (-> & ->). reflexivity.
+Qed.
+
+(* ------------------------------------------------------------------ *)
+(* the method *)
+
+Definition ascii_visible : list (N * N) := [(33, 126)].
+Definition method_shape : re :=
+  Cat (Cat (Cls ascii_visible) (Star (Cls ascii_visible))) (Cat (Cls [(32, 32)]) (Star (Cls [(0, 255)]))).
+
+(* a finite check on the request-line pattern regenerated from the source:
+   every accepted line starts with visible ASCII characters followed by SP *)
+Lemma request_line_method_shape :
+  forall s, bytes_ok s -> Lang gate_request_line s -> Lang method_shape s.
+Proof. apply incl_check_sound. vm_compute. reflexivity. Qed.
+
+Lemma star_cls rs s : Lang (Star (Cls rs)) s -> Forall (fun x => in_ranges x rs = true) s.
+Proof.
+  intro H. remember (Star (Cls rs)) as r eqn:E. induction H; try discriminate.
+  - constructor.
+  - injection E as ->. inversion H; subst. cbn [app]. constructor; auto.
+Qed.
+
+Lemma until_app_stop f m x rest :
+  Forall (fun y => f y = false) m -> f x = true -> until f (m ++ x :: rest) = m.
+Proof.
+  intros Hm Hx. induction Hm as [|y m Hy Hm IH]; cbn [app until].
+  - rewrite Hx. reflexivity.
+  - rewrite Hy, IH. reflexivity.
+Qed.
+
+Lemma split_head s c : exists tl, split s [c] = until (N.eqb c) s :: tl.
+Proof.
+  unfold split. cbn [split_fuel]. pose proof (cut1_spec c s) as C. unfold cut1 in C.
+  destruct (find s [c]) as [i|].
+  - injection C as C1 _. rewrite C1. eexists. reflexivity.
+  - injection C as C1 _. rewrite <- C1. eexists. reflexivity.
+Qed.
+
+Lemma crack_first_line_method fl cmd uri ver :
+  bytes_ok fl -> crack_first_line fl = Some (cmd, uri, ver) ->
+  beqb cmd [] && beqb uri [] && beqb ver [] = false ->
+  cmd = until (N.eqb 32) fl /\ cmd <> [] /\
+  Forall (fun x => 33 <= x <= 126 /\ ~ (97 <= x <= 122)) cmd.
+Proof.
+  intros Hb H Hne. unfold crack_first_line in H.
+  destruct (matches gate_request_line fl) eqn:M; cbn [negb] in H.
+  2:{ injection H as <- <- <-. discriminate. }
+  apply matches_correct in M. apply request_line_method_shape in M; [|exact Hb].
+  unfold method_shape in M.
+  apply Lang_Cat in M as (u & v & -> & Mu & Mv).
+  apply Lang_Cat in Mu as (u1 & u2 & -> & Mu1 & Mu2).
+  apply Lang_Cat in Mv as (v1 & v2 & -> & Mv1 & _).
+  inversion Mu1 as [| rs x Hx | | | | | |]; subst. inversion Mv1 as [| rs y Hy | | | | | |]; subst.
+  apply star_cls in Mu2.
+  assert (Y : y = 32).
+  { cbn in Hy. rewrite orb_false_r in Hy. apply andb_true_iff in Hy as [A B].
+    apply N.leb_le in A. apply N.leb_le in B. lia. }
+  subst y.
+  assert (R : forall z, in_ranges z ascii_visible = true -> 33 <= z <= 126).
+  { intros z Hz. cbn in Hz. rewrite orb_false_r in Hz. apply andb_true_iff in Hz as [A B].
+    apply N.leb_le in A. apply N.leb_le in B. lia. }
+  assert (FA : Forall (fun z => 33 <= z <= 126) ([x] ++ u2)).
+  { cbn [app]. constructor; [apply R; exact Hx|]. eapply Forall_impl; [|exact Mu2]. exact R. }
+  assert (U : until (N.eqb 32) ((([x] ++ u2) ++ [32] ++ v2)) = [x] ++ u2).
+  { cbn [app]. change (x :: u2 ++ 32 :: v2) with ((x :: u2) ++ 32 :: v2).
+    apply until_app_stop; [|reflexivity].
+    eapply Forall_impl; [|exact FA]. intros z Hz. cbn beta in *. apply N.eqb_neq. lia. }
+  destruct (split_head (([x] ++ u2) ++ [32] ++ v2) 32) as (tl & SP). rewrite U in SP.
+  rewrite SP in H.
+  assert (G : forall m, beqb m (upper_ascii m) = true -> Forall (fun z => 33 <= z <= 126) m ->
+              Forall (fun z => 33 <= z <= 126 /\ ~ (97 <= z <= 122)) m).
+  { induction m as [|z m IH]; intros Hu Hf; [constructor|].
+    cbn [upper_ascii map beqb] in Hu. apply andb_true_iff in Hu as [Hz Hu].
+    inversion Hf; subst. constructor.
+    - split; auto. intro L. unfold upper_ascii_b in Hz.
+      assert (E : (97 <=? z) && (z <=? 122) = true).
+      { apply andb_true_iff. split; apply N.leb_le; lia. }
+      rewrite E in Hz. apply N.eqb_eq in Hz. lia.
+    - apply IH; auto. }
+  destruct tl as [|u [|v [|w tl]]].
+  - injection H as <- <- <-. discriminate.
+  - destruct (beqb ([x] ++ u2) (upper_ascii ([x] ++ u2))) eqn:Eu; [|discriminate].
+    injection H as <- <- <-. split; [symmetry; exact U|]. split; [discriminate|]. apply G; auto.
+  - destruct (beqb ([x] ++ u2) (upper_ascii ([x] ++ u2))) eqn:Eu; [|discriminate].
+    injection H as <- <- <-. split; [symmetry; exact U|]. split; [discriminate|]. apply G; auto.
+  - injection H as <- <- <-. discriminate.
+Qed.
+
+Lemma upper_str_identity m :
+  Forall (fun x => 33 <= x <= 126 /\ ~ (97 <= x <= 122)) m -> upper_str m = m.
+Proof.
+  unfold upper_str. induction 1 as [|x m [Hr Hl] _ IH]; cbn [flat_map]; auto.
+  rewrite IH. unfold upper_str_c.
+  destruct ((97 <=? x) && (x <=? 122)) eqn:E1.
+  { apply andb_true_iff in E1 as [A B]. apply N.leb_le in A. apply N.leb_le in B. lia. }
+  destruct (x =? 181) eqn:E2; [apply N.eqb_eq in E2; lia|].
+  destruct (x =? 223) eqn:E3; [apply N.eqb_eq in E3; lia|].
+  destruct ((224 <=? x) && (x <=? 254) && negb (x =? 247)) eqn:E4.
+  { apply andb_true_iff in E4 as [E4 _]. apply andb_true_iff in E4 as [A _]. apply N.leb_le in A. lia. }
+  destruct (x =? 255) eqn:E5; [apply N.eqb_eq in E5; lia|].
+  reflexivity.
 Qed.
